@@ -162,6 +162,11 @@ def run(ctx):
             classes[k] = classes.get(k, 0) + 1
             if f[-1].startswith("ok:") and "+" in f[-1]:
                 multi["W"] = multi.get("W", 0) + 1
+        elif f[0] in ("V", "Y"):
+            if "+" in f[-1]:
+                multi[f[0]] = multi.get(f[0], 0) + 1
+            if f[0] == "V" and f[-1].startswith("e"):
+                classes["V:empty-first-segment"] = classes.get("V:empty-first-segment", 0) + 1
     for l in lines:
         f = l.split("\t")
         if f[0] in ("R", "F") and f[-1].startswith("ok:") and "," in f[-1]:
@@ -229,7 +234,9 @@ def run(ctx):
                        "with start 0 / end > N / empty); corr W: the built segmenter in modes single/lazy/mux/muxlazy on "
                        "synthesized files: per track and written file the decoded samples (dts,dur,size,cto,flags,md5 of data) vs "
                        "plan -> seg_track / seg_track_lazy / mux_segments -> read_back of the extracted model on the tables as "
-                       "DecodeFile sees them; corr S: tagged driver on tables: exhaustive (1-2 stts runs over counts {1,2,3} x deltas {0,1,3}, every stss "
+                       "DecodeFile sees them; corr V/Y: the DECODED output segments of the built resegmenter / of Fragmentify (per piece: "
+                       "dts,dur,size,cto,flags,md5 of data; decode-time gaps and empty first segments included) vs resegment / "
+                       "fragmentify -> write_segment -> read_back of the extracted model; corr S: tagged driver on tables: exhaustive (1-2 stts runs over counts {1,2,3} x deltas {0,1,3}, every stss "
                        "subset, d in {1,2,5} ms) + %d tables of synthesized files (1/3 with split runs / zero-count entries) + %d "
                        "malformed table sets (missing boxes, unsorted stss, zero timescales, count mismatches); corr T: the built "
                        "segmenter's printed plan on %d synthesized files; corr R/F/M: resegmenter tool, Fragmentify, combine-segs "
